@@ -95,6 +95,7 @@ func (d *Drv) batchCbPtrs(op *Op, x *Exp, cs []int) func(ecs.Entity, typed.Ptrs)
 			d.viol("C09", "batch-cb-unlocked", "world not locked inside batch callback")
 		}
 		d.structuralRejected("batch callback")
+		d.statsInCallback("a batch callback of " + op.K.String())
 		d.poke("batch callback of " + op.K.String())
 		d.reuseFilter(op)
 		d.leakQuery(op)
@@ -123,6 +124,7 @@ func (d *Drv) batchCbEnt(x *Exp) func(ecs.Entity) {
 			d.viol("C09", "batch-cb-unlocked", "world not locked inside batch callback")
 		}
 		d.structuralRejected("batch callback")
+		d.statsInCallback("a batch callback of " + x.Op.K.String())
 		d.poke("batch callback of " + x.Op.K.String())
 		d.reuseFilter(x.Op)
 		d.leakQuery(x.Op)
@@ -723,7 +725,7 @@ func (d *Drv) exec(op *Op, x *Exp) {
 	case KStats:
 		d.checkStats()
 	case KRegType:
-		ecs.TypeID(d.W, u.Filler(1000+op.N))
+		d.regLateType(op)
 	case KMisuse:
 		d.misuse(op)
 	default:
